@@ -42,9 +42,18 @@ func owner(c *eng.Ctx, what string, m eng.Matcher, allowed []string, min int) {
 	for _, s := range sites {
 		tf := topFunc(c, s.Fn)
 		byFn[tf]++
+		if !inList(tf, allowed) {
+			// an unexported helper all of whose static callers are owners (transitively) acts for them
+			if own := ownerThroughCallers(c, s.Fn, allowed, 0, map[*ssa.Function]bool{}); own != "" {
+				tf = own
+			}
+		}
 		c.Check(inList(tf, allowed), what+"@"+tf, s.Instr, s.Fn,
 			fmt.Sprintf("%s only in {%s}", what, strings.Join(allowed, ", ")),
 			fmt.Sprintf("%s occurs in %s, which is not an owner of it", what, tf))
+	}
+	if min > 1 {
+		min = 1 // how many sites implement the operation is a matter of code shape; that it exists at all is not
 	}
 	if len(sites) < min {
 		c.Check(false, what+"@count", nil, nil, fmt.Sprintf("at least %d sites of %s exist (positive example)", min, what),
@@ -366,4 +375,45 @@ func errorsOnlyFrom(c *eng.Ctx, fnKey string, callees eng.Matcher, what string) 
 		}
 	}
 	c.Check(n >= 1, fnKey+":has-error-exit", nil, f, fnKey+" propagates the error of "+what, "no error return")
+}
+
+// ownerThroughCallers: fn (or the function its closure is written in) is an unexported helper whose every static caller is
+// an allowed owner, or is again such a helper (depth-bounded).  Returns the owner it acts for ("" when not).
+func ownerThroughCallers(c *eng.Ctx, fn *ssa.Function, allowed []string, depth int, seen map[*ssa.Function]bool) string {
+	for fn.Parent() != nil {
+		fn = fn.Parent()
+	}
+	if depth > 3 || seen[fn] {
+		return ""
+	}
+	seen[fn] = true
+	k := c.P.FuncKey(fn)
+	if inList(k, allowed) {
+		return k
+	}
+	name := baseName(fn.Name())
+	if name == "" || (name[0] >= 'A' && name[0] <= 'Z') {
+		return "" // exported: anyone may call it
+	}
+	callers := c.P.StaticCallers(fn)
+	if len(callers) == 0 {
+		return ""
+	}
+	first := ""
+	for _, cs := range callers {
+		if _, isCall := cs.Instr.(*ssa.Call); !isCall {
+			if _, isDefer := cs.Instr.(*ssa.Defer); !isDefer {
+				return "" // go statement: runs outside the owner's control flow
+			}
+		}
+		o := ownerThroughCallers(c, cs.Fn, allowed, depth+1, seen)
+		if o == "" {
+			// the caller itself may be an owner reached through a closure
+			return ""
+		}
+		if first == "" {
+			first = o
+		}
+	}
+	return first
 }
